@@ -23,7 +23,7 @@ def showOut : Out → String
 
 def showV : VErr → String
   | .ok => "ok" | .size => "size" | .height => "height" | .pheight => "height" | .pround => "pround"
-  | .ptype => "ptype" | .sig => "sig" | .power => "power" | .panic => "panic"
+  | .ptype => "ptype" | .sig => "sig" | .slot => "slot" | .power => "power" | .panic => "panic"
 
 def parseVal (w : String) : Option Validator :=
   match w.splitOn ":" with
@@ -47,7 +47,7 @@ def step (s : St) (line : String) : St × String :=
   match words line with
   | "cfg" :: rest =>
     ({ s with cfg := ⟨kv rest "keyLenPrefixed" != some "0", kv rest "idxCheck" != some "0",
-      kv rest "nilCommit" != some "0"⟩ }, "ok")
+      kv rest "nilCommit" != some "0", kv rest "slotCheck" != some "0"⟩ }, "ok")
   | "new" :: h :: r :: t :: vals =>
     match parseInt h, parseInt r, parseNat t, vals.mapM parseVal with
     | some h, some r, some t, some vals => ({ s with vs := new h r t vals, sigoks := [] }, "ok")
